@@ -1,6 +1,7 @@
 /* Verification unit: hdf/src/dfrle.c (C09: "results are unchanged ... under lossless compression" -- the old-style RLE of 8-bit
    rasters, DFTAG_RLE, which hcompri.c serves to GR through DFputcomp / DFgetcomp).
-   BOUNDED round trip DFCIrle -> DFCIunrle on ONE ROW shaped "a run of R equal bytes followed by up to T other bytes": the shape that
+   BOUNDED round trip DFCIrle -> DFCIunrle on ONE ROW shaped "a run of R equal bytes followed by up to T other bytes" (R a constant
+   per obligation: -DRL_RUN=R; with a symbolic R cbmc did not finish; the byte VALUES stay symbolic): the shape that
    exercises the run-length limit (a count byte is 128 | n with n <= 127; a run of 128 would be stored as 128 | 128 == 0x80, which
    decodes as a run of length 0).  Both functions are the real ones, every loop unwound. */
 #include "h4v.h"
@@ -8,40 +9,47 @@
 #include "hdf_priv.h"
 #include "dfrle.c"
 
-#ifndef RL_MAXRUN
-#define RL_MAXRUN 135
+#ifndef RL_RUN
+#define RL_RUN 135
 #endif
+#define RL_MAXRUN RL_RUN
 #define RL_TAIL 2
 #define RL_MAXLEN (RL_MAXRUN + RL_TAIL)
 typedef unsigned char h4v_u8;
 H4V_DECL_ND(int);
 H4V_DECL_ND(h4v_u8);
 
-void
-h_dfrle_roundtrip(void)
+static void
+rl_one(int run, int tail, h4v_u8 a, h4v_u8 t0, h4v_u8 t1, int k)
 {
     static uint8 in[RL_MAXLEN], out[2 * RL_MAXLEN + 8], back[RL_MAXLEN];
-    H4V_ND(int, run);
-    H4V_ND(int, tail);
-    H4V_ND(h4v_u8, a);
-    H4V_ND(h4v_u8, t0);
-    H4V_ND(h4v_u8, t1);
-    H4V_ND(int, k);
-    H4V_ASSUME(run >= 0 && run <= RL_MAXRUN && tail >= 0 && tail <= RL_TAIL && run + tail >= 1);
-    H4V_ASSUME(t0 != a); /* the run ends where it is said to end */
-    int32 len = run + tail;
+    int32        len = run + tail; /* a constant at every call: only the byte values and the checked position k are symbolic */
+    if (len < 1)
+        return;
     for (int i = 0; i < RL_MAXLEN; i++)
         in[i] = i < run ? a : (i == run ? t0 : t1);
-    H4V_ASSUME(k >= 0 && k < len);
     int32 n = DFCIrle(in, out, len);
     H4V_CHECK(n >= 1 && n <= 2 * RL_MAXLEN + 8, "DFCIrle: the encoded row fits the worst-case buffer");
     for (int i = 0; i < RL_MAXLEN; i++)
         back[i] = 0;
     int32 used = DFCIunrle(out, back, len, 1);
     H4V_CHECK(used == n, "DFCIunrle consumes exactly the bytes DFCIrle produced for the row");
-    H4V_CHECK(back[k] == in[k], "C09 old-style RLE: the decoded row is the encoded row");
-    H4V_COVER(run == 128 && tail == 1, "dfrle: run of exactly 128");
-    H4V_COVER(run == RL_MAXRUN, "dfrle: longest run");
-    H4V_COVER(run == 2 && tail == 2, "dfrle: short run stays literal");
+    H4V_CHECK(k >= len || back[k] == in[k], "C09 old-style RLE: the decoded row is the encoded row");
+}
+
+void
+h_dfrle_roundtrip(void)
+{
+    H4V_ND(h4v_u8, a);
+    H4V_ND(h4v_u8, t0);
+    H4V_ND(h4v_u8, t1);
+    H4V_ND(int, k);
+    H4V_ASSUME(t0 != a); /* the run ends where it is said to end */
+    H4V_ASSUME(k >= 0 && k < RL_MAXLEN);
+    rl_one(RL_RUN, 0, a, t0, t1, k);
+    rl_one(RL_RUN, 1, a, t0, t1, k);
+    rl_one(RL_RUN, 2, a, t0, t1, k);
+    H4V_COVER(t1 == t0, "dfrle: the two bytes after the run are equal");
+    H4V_COVER(t1 == a, "dfrle: the run value returns after one other byte");
     H4V_CANARY("dfrle_roundtrip end");
 }
